@@ -367,13 +367,13 @@ for arch, vdef in ARCHS:
 for _n in (16, 32):
     C15_JOBS.append(dict(
         id="C15.Xmemcpy_%d@sse" % _n, src="c15_xmemcpy.c", harness="h_Xmemcpy_%d" % _n, units=arch_units("sse") + ["sse.Xmemcpy_16", "sse.Xmemcpy_32"], defs=[dict(ARCHS)["sse"], "XM_MAX=5"], arch="sse",
-        route="B(chunks<=5)", bound="chunks <= 5", function="sse::Xmemcpy<%d>" % _n, unwind=12, object_bits=12, timeout=900,
+        route="B(chunks<=5)", bound="chunks <= 5", replay="xmemcpy%d" % _n, function="sse::Xmemcpy<%d>" % _n, unwind=12, object_bits=12, timeout=900,
         claims="bounded (chunks <= 5), sse instantiation only: every byte k < chunks*%d of the destination equals the source byte, the source is unchanged, and every load/store stays inside the exact-size blocks (memcpy semantics, the statement both instantiations must meet). The avx2 body: see the .split jobs" % _n))
 for _arch, _vdef in ARCHS:
     for _n in (16, 32):
         C15_JOBS.append(dict(
             id="C15.Xmemcpy_%d.split@%s" % (_n, _arch), src="c15_xmemcpy.c", harness="h_Xmemcpy_%d_split" % _n, units=arch_units(_arch) + [_arch + ".Xmemcpy_16", _arch + ".Xmemcpy_32"], defs=[_vdef], arch=_arch,
-            route="B(chunks<=9)", bound="chunks <= 9 (case-split into constants)", function="%s::Xmemcpy<%d>" % (_arch, _n), unwind=20, object_bits=12, timeout=900,
+            route="B(chunks<=9)", bound="chunks <= 9 (case-split into constants)", replay="xmemcpy%d" % _n, function="%s::Xmemcpy<%d>" % (_arch, _n), unwind=20, object_bits=12, timeout=900,
             claims="bounded (every chunk count 0..9, all contents): destination bytes [0, chunks*%d) equal the source, the byte after them is not written, the source is unchanged, all loads/stores inside the blocks; the same statement for the avx2 and the sse body => identical results" % _n))
 PROPS["C15"] = dict(level="other", jobs=C15_JOBS, trusted_base=COMMON_TRUST + MODEL_TRUST,
     native=[dict(id="ifunc_forwarders", kind="script", src="tools/ifunc_check.py",
